@@ -172,10 +172,24 @@ def attach(cases, revs, ctx=None, sample=0):
     ok = [c for c in cases if c.result and c.result.get("ok") and c.answer and "bad" not in c.answer]
     need = [c for c in ok if cgroup.needs_gxx(c)]
     rest = [c for c in ok if c not in need]
-    rest.sort(key=lambda c: 0 if getattr(c, "family", "") == "first_mix" else (1 if ("First" in cgroup.qgen.ops_used(c.query) and c.form == "select") else 2))
+    rest.sort(key=lambda c: 0 if (getattr(c, "family", "") == "first_mix" or any(len(ev["banks"]) < len(c.events[-1]["banks"]) for ev in c.events)) else (1 if ("First" in cgroup.qgen.ops_used(c.query) and c.form == "select") else 2))
     extra = rest if (ctx is not None and ctx.tier == "thorough") else rest[:sample]
     if need or extra:
         cgroup.attach_gxx(need + extra, per_event=True, job=True, rev=True)
+
+
+def drop_banks(ctx, c):
+    """some events lack one of the containers the query reads — one that is NOT the first the code asks for, so that
+    columns built from earlier containers are already filled when the retrieval fails: the job must stop there, not
+    skip the event with half-built columns"""
+    used = list(cgroup.qgen.banks_used(c.query))  # in order of first use
+    if len(used) < 2:
+        return c
+    for ev in c.events[:-1]:
+        if ctx.rng.random() < 0.4:
+            victim = ctx.rng.choice(used[1:])
+            ev["banks"] = [b for b in ev["banks"] if b["bank"] != victim]
+    return c
 
 
 def gen_cases(ctx, n):
@@ -183,6 +197,8 @@ def gen_cases(ctx, n):
     for i in range(n):
         # every 4th case: vector columns next to an unguarded First (an event that cannot produce its row must not leave half-built columns behind)
         c = cgroup.gen_case(ctx.rng, backend=cgroup.P.BACKENDS[i % 3], nevents=5, empty_bias=0.3, family="first_mix" if i % 4 == 3 else "top")
+        if i % 5 in (1, 3):  # (not a multiple of 3: the backend cycles with i % 3)
+            drop_banks(ctx, c)
         cases.append(c)
     return cases
 
